@@ -375,6 +375,11 @@ func (w *world) opTypedApplyFetch(c *simChan) {
 	w.ack(c)
 	w.ackedMuts++
 	w.noteAdded(c, rows)
+	for _, r := range rows {
+		if len(r.Payload) == 0 {
+			c.emptyTyped = true
+		}
+	}
 	w.r.Probe("op.typed.apply")
 	if len(rows) > 0 && (res.BaseSeq != rows[0].Seq || res.LastSeq != rows[len(rows)-1].Seq) {
 		w.fail("result-mismatch", "typed.ApplyFetch", fmt.Sprintf("apply on %s returned %+v want %d..%d", c.key, res, rows[0].Seq, rows[len(rows)-1].Seq))
